@@ -3,7 +3,7 @@ import re
 
 from hypothesis import strategies as st
 
-TEXT_ALPHA = list("abcxyz01 .,;:!?()[]-_=+*") + ["\n", "\n", " ", "\t", "é"]
+TEXT_ALPHA = list("abcxyz01 .,;:!?()[]-_=+*") + ["\n", "\n", " ", "\t", "é", "\r\n"]
 INDENTS = ["", "", " ", "  ", "\t", "    ", " \t"]
 LEN_ITERS = [("cl", "str"), ("ce", "str"), ("'abc'", "str"), ("range(cn)", "int"), ("(1, 2)", "int"), ("cd", "str"),
              ("[cs, cs]", "str"), ("range(0)", "int"), ("cl[0:2]", "str"), ("cl[:]", "str"), ("sorted(cl, key=lambda z: z)", "str"),
